@@ -63,6 +63,14 @@ theorem C23_engine_total {St K : Type} (top : Goal St K → St → Strm St K) (l
   | none => exact .inl rfl
   | some r => exact .inr ⟨r, rfl⟩
 
+/-- ASSEMBLY for the constraint state machine: posting ANY list of well-formed atoms (`==`, `!=`, `infd`
+    with a well-formed domain, CLP(Z) and CLP(FD) constraints of every kind except distinctfd), in any order,
+    under any hash-iteration order, through the re-entrant propagation loop, NEVER reaches a panic site —
+    in particular `fd-minmax` (min/max of an empty domain, src/state/fd.rs:17,33) is unreachable because
+    every stored domain stays non-empty and sorted; an unsatisfiable conjunction simply fails. -/
+theorem C23_state_machine {ord : Order} (ho : OrderOK ord) (n : Nat) (as : List FAtom) (hok : ∀ a ∈ as, a.OK)
+    (s : String) : postAllF ord (State.empty n) as ≠ .panic s := fd_no_panic ho n as hok s
+
 section Examples
 open Term
 private def o : Order := Order.default
